@@ -4,10 +4,11 @@ C29 — Every collective algorithm computes the MPI result.  Property theorems.
 
 (A) theorems on the SPEC (Model.lean §Spec), for every communicator size, count, buffers, and every operator that is
     associative (+ commutative where stated);
-(B) schedule theorem: the round-based model of allreduce-rdb (incl. its non-power-of-two pre/post phase) computes the
-    spec's result for EVERY communicator size and rank (`allreduce_rdb_eq_spec`).
+(B) schedule theorems: the round-based models of allreduce-rdb (incl. its non-power-of-two pre/post phase) and of
+    allgather-ring compute the spec's result for EVERY communicator size and rank (`allreduce_rdb_eq_spec`,
+    `allgather_ring_eq_spec`).
     NOT proved (modelled in Model.lean and compared with the library on the grid only): bcast binomial_tree,
-    allgather ring, alltoall pair.  The ≈180 other selectable algorithms are not modelled at all: they are tied to the
+    alltoall pair.  The ≈180 other selectable algorithms are not modelled at all: they are tied to the
     spec by the correspondence only.
 -/
 namespace SgVerif.C29
@@ -190,6 +191,32 @@ theorem allreduce_rdb_eq_spec (op : α → α → α) (hA : ∀ a b c, op (op a 
   split
   · exact key _ (by omega)
   · exact key _ (by omega)
+
+/-- **allgather ring = the spec, for every communicator size and rank**: after the `np-1` rounds every slot of the
+receive buffer of `rank` holds the block of the corresponding rank (every posted receive is matched by the send the
+schedule pairs it with: the `(src + i) % np = rank` test of the model never fails). -/
+theorem allgather_ring_eq_spec (bufs : Bufs α) (rank : Nat) (hr : rank < bufs.length) :
+    allgatherRing bufs rank = bufs.map some := by
+  unfold allgatherRing
+  rw [List.getElem?_eq_getElem hr]
+  simp only
+  apply List.ext_getElem?
+  intro s
+  by_cases hs : s < bufs.length
+  · rw [ringRounds_get bufs rank (bufs.length - 1) _ hr (by omega) (by simp [setSlot]) s hs]
+    simp only [List.getElem?_map, List.getElem?_eq_getElem hs, Option.map_some]
+    by_cases hd : 1 ≤ ringDist bufs.length rank s ∧ ringDist bufs.length rank s ≤ bufs.length - 1
+    · rw [if_pos hd]
+    · rw [if_neg hd]
+      have hsr : s = rank := by unfold ringDist at hd; split at hd <;> omega
+      subst hsr
+      simp [setSlot, hs]
+  · have h1 : (ringRounds bufs rank (bufs.length - 1) (setSlot (List.replicate bufs.length none) rank bufs[rank])).length
+        = bufs.length := by rw [ringRounds_length]; simp [setSlot]
+    rw [List.getElem?_eq_none (by omega), List.getElem?_eq_none (by simp; omega)]
+
+/-- non-vacuity: 5 ranks -/
+example : allgatherRing [[1], [2], [3], [4], [5]] 3 = [some [1], some [2], some [3], some [4], some [5]] := by decide
 
 /-- the model writes `newrank ^ mask` arithmetically; finite sanity check (enumeration, not a proof for all sizes) -/
 example : ∀ nr < 64, ∀ k < 6, rdbPartner nr k = nr ^^^ 2 ^ k := by decide
